@@ -171,6 +171,10 @@ def c14_stop(c1: int, c2: int, c3: int, c4: int, ri: int) -> bool:
             else:
                 r = w.call('kill', name='a', waiting=True, signum='SIGKILL', max_time=20.0)
             w.run_for(1.0)
+            if req in ('kill', 'kill_kill'):
+                k.behaviour = lambda i, argv: Beh(obey=0.0)
+                w.check_now()           # the kill command leaves the reaping to the periodic check
+                w.run_for(0.5)
             if w.clock.tripped:
                 return rt.skip()
             ok = True
